@@ -828,6 +828,7 @@ func genExpr(r *verifx.Rng, lod int64) *expr {
 }
 
 type scenario struct {
+	hidden bool // one series has events only before the visible part of the time scale (round 7)
 	st              *store
 	start, end, now int64
 	step            int64
@@ -859,6 +860,16 @@ func genTags(r *verifx.Rng, st *store) {
 	}
 }
 
+// round 7: one series in four scenarios (with at least two series) has events only BEFORE the visible part of the time scale
+// (in the hidden points an extended range loads): such a series must not take part in topk/bottomk ranking nor appear in
+// the result, whatever later operators do (Series.removeEmpty looks at the view only).
+func genHiddenOnly(r *verifx.Rng, st *store) int {
+	if len(st.tags) >= 2 && r.Chance(1, 4) {
+		return r.Intn(len(st.tags))
+	}
+	return -1
+}
+
 func genValue(r *verifx.Rng) int64 { return 5040 * int64(r.Range(-3, 20)) }
 
 // dense one-second events on a fine grid (steps 0, 1, 5, 10, 15)
@@ -878,9 +889,13 @@ func genFine(r *verifx.Rng, metric *format.MetricMetaValue) scenario {
 	density := []int{1, 2, 3, 4}[r.Intn(4)] // out of 4
 	gapLo := from + int64(r.Intn(int(end-from)))
 	gapHi := gapLo + int64(r.Range(0, int(3*lod)))
+	hiddenOnly := genHiddenOnly(r, st)
 	for s := range st.tags {
 		for sec := from; sec < end; sec++ {
 			if sec >= gapLo && sec < gapHi {
+				continue
+			}
+			if s == hiddenOnly && sec >= base {
 				continue
 			}
 			if r.Intn(4) < density {
@@ -888,7 +903,7 @@ func genFine(r *verifx.Rng, metric *format.MetricMetaValue) scenario {
 			}
 		}
 	}
-	return scenario{st: st, start: start, end: end, now: end + int64(r.Range(1, 30)), step: step, kind: "fine"}
+	return scenario{st: st, start: start, end: end, now: end + int64(r.Range(1, 30)), step: step, kind: "fine", hidden: hiddenOnly >= 0}
 }
 
 // at most one event per series and grid bucket; requested steps that are not LOD levels are served on a finer grid
@@ -905,14 +920,18 @@ func genCoarse(r *verifx.Rng, metric *format.MetricMetaValue) scenario {
 	}
 	end := start + points*step
 	density := []int{2, 3, 4}[r.Intn(3)]
+	hiddenOnly := genHiddenOnly(r, st)
 	for s := range st.tags {
 		for b := base/g - 8; b*g < end; b++ {
+			if s == hiddenOnly && b*g+g > base {
+				continue
+			}
 			if r.Intn(4) < density {
 				st.events = append(st.events, event{series: s, sec: b*g + int64(r.Intn(int(g))), val: genValue(r)})
 			}
 		}
 	}
-	return scenario{st: st, start: start, end: end, now: end + int64(r.Range(1, 30)), step: step, kind: "coarse"}
+	return scenario{st: st, start: start, end: end, now: end + int64(r.Range(1, 30)), step: step, kind: "coarse", hidden: hiddenOnly >= 0}
 }
 
 // the query crosses the boundary (now - 52h + 2s) between the minute table and the second table: two LODs
@@ -1167,6 +1186,9 @@ func evalCase(h *verifx.H, r *verifx.Rng, metric *format.MetricMetaValue) {
 	h.Op("%s", storeOp(sc.st))
 	lod := gridOf(sc.step)
 	h.Stat("scenario."+sc.kind, 1)
+	if sc.hidden {
+		h.Stat("scenario.hidden-only-series", 1)
+	}
 	h.Stat(fmt.Sprintf("step.%d", sc.step), 1)
 	nexpr := r.Range(1, 3)
 	for x := 0; x < nexpr; x++ {
